@@ -38,6 +38,9 @@ Mk(shape, seed) ==
   IN [rank |-> rank, data |-> UnflatR(rank, [i \in 1..n |-> Val(seed, i)], shape)]
 
 MkNested(shapes, seed) == [rank |-> 0, parts |-> [k \in 1..Len(shapes) |-> Mk(shapes[k], seed + k)]]
+\* a list of lists (depth two): the element-wise contract and the refusal of unequal shapes hold at EVERY level
+MkNested2(seed, last) == [rank |-> 0, parts |-> <<MkNested(<<<<2>>, <<1, 2>>>>, seed), MkNested(<<<<last>>>>, seed + 3)>>]
+IsDeep(t) == t.rank = 0 /\ t.parts[1].rank = 0
 \* lists with optional entries (rank -1; the bias gradients of a feedback block): an absent entry is NoTensor
 NoTensor == [rank |-> -2]
 MkOptional(pattern, seed) ==
@@ -103,6 +106,7 @@ StartTensors ==
   {Mk(s, seed) : s \in UNION {ShapesOf(r) : r \in 1..4}, seed \in Seeds}
   \cup {Mk(s, 7) : s \in LargeShapes}
   \cup {MkNested(<<<<2>>, <<1, 2>>>>, seed) : seed \in Seeds}
+  \cup {MkNested2(seed, 3) : seed \in Seeds}
   \cup {MkOptional(pat, 3) : pat \in OptPatterns}
 
 \* Operands offered to a binary operation on x: the matching shape, and mismatching ones
@@ -111,6 +115,9 @@ Operands(x) ==
   IF x.rank = -1
     \* every presence pattern of the same length (incl. ones that differ from x's), and a shorter list
     THEN {MkOptional(pat, 5) : pat \in OptPatterns} \cup {MkOptional(<<TRUE, TRUE>>, 5)}
+  ELSE IF IsDeep(x)
+    \* the matching list of lists, and one whose INNERMOST tensor has another extent (equal lengths at every level)
+    THEN {MkNested2(5, 3), MkNested2(5, 2), MkNested(<<<<2>>, <<1, 2>>>>, 5)}
   ELSE IF x.rank = 0
     \* the matching list, a shorter list, and lists of the same length with ONE entry of another shape
     THEN {MkNested(<<<<2>>, <<1, 2>>>>, 5), MkNested(<<<<2>>>>, 5), MkNested(<<<<3>>, <<1, 2>>>>, 5), MkNested(<<<<2>>, <<1, 3>>>>, 5)}
@@ -172,7 +179,8 @@ Mean(ys) ==
        ELSE Step("mean", ys, acc, "panic", Len(ys))
 
 MeanOperands(x) ==
-  IF x.rank <= 0 THEN {<<MkNested(<<<<2>>, <<1, 2>>>>, 5)>>}
+  IF IsDeep(x) THEN {<<MkNested2(5, 3)>>}
+  ELSE IF x.rank <= 0 THEN {<<MkNested(<<<<2>>, <<1, 2>>>>, 5)>>}
   ELSE LET s == DimsR(x.rank, x.data) IN
        {<<Mk(s, 4)>>, <<Mk(s, 4), Mk(s, 6)>>, <<Mk(s, 4), Mk(s, 6), Mk(s, 9)>>,
         <<Mk(s, 4), Mk([s EXCEPT ![1] = (s[1] % MaxDim) + 1], 6)>>}
